@@ -31,7 +31,7 @@ func init() {
 		Assumptions: []string{"inputs handed to bsonkit/mongokit directly are normalised by bsonkit.Transform first, as their documentation requires", "the 60 s per-call limit is the only wall-clock verdict (calls normally take microseconds)"},
 		Batches:     func(tier string) int { return 16 },
 		Require: func(tier string) map[string]int64 {
-			return map[string]int64{"calls_bsonkit": 10000, "calls_mongokit": 10000, "calls_driver": 10000, "errors_returned": 5000, "probes": 300, "probes_after_excluded_panics": 100, "doc_or_binary_id_writes": 200}
+			return map[string]int64{"calls_bsonkit": 10000, "calls_mongokit": 10000, "calls_driver": 10000, "grid_calls": 20000, "errors_returned": 5000, "probes": 300, "probes_after_excluded_panics": 100, "doc_or_binary_id_writes": 200}
 		},
 		WorkerTimeoutSec: func(tier string) int {
 			if tier == "thorough" {
@@ -147,6 +147,10 @@ func runC20(c *fw.Ctx) {
 				return
 			}
 		}
+	}
+	c20Grid(c, begin, end)
+	if c.Violations() >= 40 {
+		return
 	}
 	for q := 0; q < n; q++ {
 		idx := c.Batch*n + q
